@@ -17,7 +17,11 @@ long raw_syscall6(long n, long a, long b, long c, long d, long e, long f);
 struct SimScope {                           // marks "inside the simulator"; also hides harness work from TSan
     SimScope(); ~SimScope();
 };
-static inline bool sim_active() { return t_in_sut && !t_in_sim; }
+extern uintptr_t g_sut_lo, g_sut_hi;          // text range of libsnoopy.so
+// A call is simulated only when it is made by library code of a wrapped call: the thread is inside the library,
+// not inside the simulator, and the immediate caller is libsnoopy.so itself (the sanitizer runtimes also reach
+// these definitions through their PLT, e.g. when symbolizing a report, and must get the real thing).
+#define sim_active() (t_in_sut && !t_in_sim && (uintptr_t)__builtin_return_address(0) - g_sut_lo < g_sut_hi - g_sut_lo)
 
 struct OpenDesc {
     int fd = 0, id = 0;
@@ -73,6 +77,7 @@ FILE *k_fopen(const char *path, const char *mode);
 FILE *k_fdopen(int fd, const char *mode);
 void sim_abort(const char *cls, const std::string &detail) __attribute__((noreturn));
 Snap take_snapshot();
+void sut_write(void *dst, const void *src, size_t n);   // copy into memory owned by the library, visible to TSan as a write by this thread
 
 // scheduler (sched.cpp)
 enum { SP_ONCE, SP_LOCK_PRE, SP_LOCK_POST, SP_UNLOCK_PRE, SP_UNLOCK_POST, SP_IO, SP_CALL_ENTER, SP_CALL_EXIT, SP_EXEC };
